@@ -384,7 +384,7 @@ where
 unsafe impl<MutexType: RawMutex + Sync, T: Send, A> Sync
     for GenericChannel<MutexType, T, A>
 where
-    A: RingBuf<Item = T>,
+    A: RingBuf<Item = T> + Send,
 {
 }
 
